@@ -190,8 +190,12 @@ def run_case(case):
                 phi, the, psi = (a[i, 0], a[i, 1], a[i, 2]) if order == "zxz" else (a[i, 0], a[i, 2], a[i, 1])
                 if not np.allclose(R_zxz(phi, the, psi)[:, 2], nrm[i] / np.linalg.norm(nrm[i]), atol=1e-6):
                     return {"what": "normals_to_euler_angles: z-axis of the result is not the normalised normal", "normal": nrm[i].tolist(), "order": order}
-        df = pd.DataFrame(nrm, columns=["x", "y", "z"])
+        # table input: columns x, y, z picked by name, whatever their position and whatever else the table holds
+        df = pd.DataFrame({"score": np.arange(len(nrm), dtype=float), "z": nrm[:, 2], "x": nrm[:, 0], "tomo_id": 1.0, "y": nrm[:, 1]})
         a2, e = call(geom.normals_to_euler_angles, df)
         if e is not None:
             return {"raised": f"normals_to_euler_angles(DataFrame) {e}"}
+        for i in range(len(nrm)):
+            if not np.allclose(R_zxz(a2[i, 0], a2[i, 1], a2[i, 2])[:, 2], nrm[i] / np.linalg.norm(nrm[i]), atol=1e-6):
+                return {"what": "normals_to_euler_angles(DataFrame): z-axis of the result is not the normalised normal", "normal": nrm[i].tolist()}
     return None
